@@ -76,7 +76,20 @@ SB_OP(traj)
             sb_trajectory_stats_calculator_init(&calc, 1.0f);
             sb_trajectory_stats_calculator_set_components(&calc, SB_TRAJECTORY_STATS_DURATION);
             sb_error_t qrc = sb_trajectory_stats_calculator_run(&calc, &traj, &stats);
-            add(out, std::to_string((int)qrc) + "," + std::to_string(stats.duration_msec) + "," + fbits(stats.duration_sec));
+            // the duration must not depend on which other statistics are requested with it
+            bool agree = true;
+            static const int masks[] = { 3, 5, 9, 7, 11, 13, 15 };
+            for (int m : masks) {
+                sb_trajectory_stats_calculator_t c2;
+                sb_trajectory_stats_t s2;
+                sb_trajectory_stats_calculator_init(&c2, 1.0f);
+                c2.min_ascent = 0.5f; // reached early on most trajectories
+                sb_trajectory_stats_calculator_set_components(&c2, (sb_trajectory_stat_components_t)m);
+                sb_error_t r2 = sb_trajectory_stats_calculator_run(&c2, &traj, &s2);
+                agree = agree && r2 == qrc && (r2 != SB_SUCCESS || s2.duration_msec == stats.duration_msec);
+                sb_trajectory_stats_calculator_destroy(&c2);
+            }
+            add(out, std::to_string((int)qrc) + "," + std::to_string(stats.duration_msec) + "," + fbits(stats.duration_sec) + "," + (agree ? "=" : "!"));
             sb_trajectory_stats_calculator_destroy(&calc);
         } else if (k == 's' || k == 'e') {
             sb_vector3_with_yaw_t r;
